@@ -64,10 +64,12 @@ class Arm:
         self.tag, rest = split_tag(term)
         self.callee = None
         self.operand = None
+        self.extra = ()
         if len(rest) == 1 and isinstance(rest[0], Sym) and \
                 rest[0].op == 'enc':
             self.callee = rest[0].args[0]
             self.operand = rest[0].args[1]
+            self.extra = tuple(rest[0].args[2:])
         elif not rest:
             self.callee = ''
         self.rest = rest
@@ -115,7 +117,7 @@ def first_accepting(arms, P, pytype):
     return None
 
 
-def ladder_arms(ctx, legacy, fi=None, within=None, depth=0):
+def ladder_arms(ctx, legacy, fi=None, within=None, depth=0, extra=()):
     """Arms of the integer ladder with the legacy switch off/on:
     [(ISet, Arm)], reject ISet, info.  An arm that merely delegates to
     another encode function (no tag of its own) is expanded by analysing
@@ -126,8 +128,11 @@ def ladder_arms(ctx, legacy, fi=None, within=None, depth=0):
     if within is None:
         within = isets.ISet.all()
     pol = ArmPolicy(prog, {fi.qualname}, flag=bool(legacy))
-    it, outs = codec.run(prog, fi, None, pol)
-    P = codec.symbolic_args(fi)[0]
+    sargs = codec.symbolic_args(fi)
+    P = sargs[0]
+    if extra:
+        sargs = [P] + list(extra) + sargs[1 + len(extra):]
+    it, outs = codec.run(prog, fi, sargs, pol)
     arms = []
     problems = []
     reject = isets.ISet.empty()
@@ -148,7 +153,8 @@ def ladder_arms(ctx, legacy, fi=None, within=None, depth=0):
             sub_fi = prog.functions.get('pamqp.' + arm.callee)
             if sub_fi is not None and \
                     sub_fi.module.name.endswith('.encode'):
-                sub = ladder_arms(ctx, legacy, sub_fi, s, depth + 1)
+                sub = ladder_arms(ctx, legacy, sub_fi, s, depth + 1,
+                                  arm.extra)
                 arms.extend(sub['arms'])
                 reject = reject.union(sub['reject'])
                 rej_types |= sub['reject_types']
